@@ -36,6 +36,13 @@ Which model component each derived field corresponds to (the model recomputes, t
   typeDictionary.dict                      | typedef lookup walks the statement trees of the registry
   config: Modules.ParseOptions, Path       | Session.opts (the search path is outside the machine)
 
+What "reset or generation-guarded" buys is no longer only an argument in prose: Props/C18Cached.lean
+defines `ResetDiscipline` over a table of this shape (the fields of the rows marked derived above,
+each with its required reset class and no stray writer), proves that a machine which really keeps
+that state between calls then refines the session model (`cached_refines_session`), evaluates the
+predicate on the current table (`reset_discipline_holds`) and refutes the refinement for each reset
+dropped.  `carried_state_justified` remains the obligation that NO OTHER field carries derived state.
+
 What the facts mean and what the translator cannot see (aliases of the registry maps, writes by
 reflection in the AST builder, reads that do not go through a field selection) is described at the
 top of harness/cmd/extract-state/main.go; it is part of the trusted base in checks/C18.json.
